@@ -40,6 +40,9 @@ JudgeDamage(e, f) ==
       nb  == Len(f.blocks)
   IN
   If(~e.panic, "C14:panic")
+  \* the deserializing iterator (read_next_deser) must behave exactly like the value iterator
+  \cup If(~e.open_ok \/ (e.d_ok = e.n_ok /\ (e.d_err >= 1) = (e.n_err >= 1) /\ e.d_after = 0 /\ e.d_err <= 1),
+          "C14:deserializing-iterator-differs-from-value-iterator")
   \cup
   (CASE e.kind = "cut" ->
          IF e.k < hdr THEN If(~e.open_ok, "C14:open-succeeded-on-file-cut-inside-header")
